@@ -474,6 +474,21 @@ namespace
             // one in sixteen (custom allocator only: under ASan the global operator new aborts instead of throwing): a size
             // no allocation can satisfy - near SIZE_MAX, where the block count computation itself is at its limit
             if (alloc_faults && ((st.d >> 1) & 15) == 15) v = 2;
+            if ((st.d >> 5) % 1500 == 1 && sizeof(B) == 8 && !alloc_faults)
+            {
+                // rarely: more than INT_MAX set bits (results of count() and friends are size_type, not int)
+                Scope sc2(*this, st, "resize", "more_than_INT_MAX_set_bits", t);
+                Suspend nofaults;
+                const size_t big = (size_t(1) << 31) + 64 + static_cast<size_t>(st.a % 64);
+                BSet h(big, true);
+                if (h.count() != big) viol("model", "huge", "count() of " + std::to_string(big) + " set bits returned " + std::to_string(h.count()));
+                if (!h.all() || h.none() || !h.any()) viol("model", "huge", "all()/any()/none() wrong for " + std::to_string(big) + " set bits");
+                h.set(big - 1, false);
+                if (h.count() != big - 1 || h.all()) viol("model", "huge", "count()/all() wrong after clearing the last of " + std::to_string(big) + " bits");
+                SIM_PROBE("more_than_INT_MAX_set_bits");
+                check_all();
+                return;
+            }
             Scope sc(*this, st, "resize", vn[v], t);
             size_t n = size_pick(st.a);
             bool val = st.b & 1;
